@@ -124,6 +124,11 @@ def build(case):
         surf = bytearray(disc.acorn_surface(v, n, case.get('tag', 'b').encode(), watford=(kind == 'watford')))
         if case.get('hdfs'):
             surf[256 + 6] |= 8
+        if total >= 1024:
+            # Watford DDFS large disc: bit 10 of the sector count lives in bit 2 of byte 6 (both catalogue halves)
+            surf[256 + 6] |= 4
+            if kind == 'watford':
+                surf[768 + 6] |= 4
         for off, hx in case.get('poke', []):
             b = bytes.fromhex(hx)
             surf[off:off + len(b)] = b
@@ -227,6 +232,18 @@ def fam_matrix(tier):
                    'note': 'opus %d tracks, volumes of %s tracks' % (tr, vt), 'differential': True}
     for tr, spt, ext in ((40, 10, 'ssd'), (80, 18, 'sdd')):
         yield {'kind': 'acorn', 'tracks': tr, 'spt': spt, 'ext': ext, 'hdfs': True, 'sig': 'C13:hdfs-flag', 'note': 'HDFS flag bit set'}
+
+
+def fam_watford_large(tier):
+    """Watford large discs: catalogue sector counts of 1024..1440 (11-bit count, bit 10 in bit 2 of byte 6) on 80x18, files up to sector 1000"""
+    totals = (1024, 1280, 1439, 1440) if tier == 'quick' else sorted(set(list(range(1024, 1441, 13)) + [1024, 1025, 1279, 1280, 1439, 1440]))
+    for ext in ('sdd', 'ddd'):
+        for gzf in (False, True):
+            for total in totals:
+                for files in ([(4, 300)], [(1000, 300), (4, 300)], [(1022, 256), (500, 70000), (4, 1)]):
+                    yield {'kind': 'watford', 'tracks': 80, 'spt': 18, 'ext': ext, 'gz': gzf, 'total': total, 'files': files, 'want': 'watford',
+                           'sig': 'C13:watford-large-disc', 'note': 'watford %s 80x18 total=%d files=%s%s' % (ext, total, files, ' .gz' if gzf else ''),
+                           'differential': True}
 
 
 def fam_watford_starts(tier):
@@ -336,7 +353,7 @@ def fam_side2_imitation(tier):
                    'differential': True}
 
 
-FAMILIES = [('M-variant-geometry-container', fam_matrix), ('A-watford-marker-imitation', fam_marker_imitation),
+FAMILIES = [('M-variant-geometry-container', fam_matrix), ('L-watford-large-discs', fam_watford_large), ('A-watford-marker-imitation', fam_marker_imitation),
             ('O-opus-table-imitation', fam_opus_imitation), ('P-opus-partly-consistent-tables', fam_opus_partial), ('S-side2-catalogue-imitation', fam_side2_imitation),
             ('W-watford-every-start-sector', fam_watford_starts)]
 
